@@ -42,6 +42,16 @@ def gen_ids(rng, n):
         b = rng.choice(out)
         if r0 < 0.3 and r < 0.7:
             c = rng.choice([b.swapcase(), b.lower(), b.upper(), b + "x", b + b[-1:], b[:-1] + "Z"])
+        elif r < 0.08:
+            import unicodedata
+            c = unicodedata.normalize("NFD", b)
+            if c == b:
+                c = unicodedata.normalize("NFC", b)
+            if c == b:
+                c = b + "e\u0301" if rng.random() < 0.5 else b + "\u00e9"
+                if b + "\u00e9" not in out and rng.random() < 0.5:
+                    out.append(b + "\u00e9")
+                    c = b + "e\u0301"
         elif r < 0.2:
             c = b + rng.choice(["c", "/", ".", "b", "́"])
         elif r < 0.35 and len(b) > 1:
